@@ -36,7 +36,10 @@ LEVEL_TEXT = (
     "first among equals), prio_strict_order, warnings_order, patch_field_spec (patch/patchType present exactly when "
     "there are operations, independent of the outcomes, i.e. also on denial). Selection (code after cc4195a): gate_spec "
     "is the FULL clause — type hint, webhook id, the request's operation among the handler's declared ones, DELETE "
-    "exclusion of mutating handlers unless opted in, subresource, filters; select_spec, hinted_only_that_handler, "
+    "exclusion of mutating handlers unless opted in, subresource, filters; select_spec (selected => registered and "
+    "passing the gate, registry order, no function/id pair twice), stacked_registration_selected (one function "
+    "registered several times under one id: if ANY registration passes the gate the function is selected exactly once "
+    "— deduplication after matching, as registries._deduplicated is applied), hinted_only_that_handler, "
     "gate_enforces_operations (every selected handler's declared operations admit the request's operation, the same "
     "test as the rule sent to the apiserver, tied to build_webhooks), restricted_handler_skipped (the former C18-F3 "
     "witness, generalised, is now rejected). Whole review: serve_allowed_iff "
@@ -66,6 +69,7 @@ THEOREMS = [
     ("Kopf.Props.C18", "Kopf.C18.patch_field_spec"),
     ("Kopf.Props.C18", "Kopf.C18.gate_spec"),
     ("Kopf.Props.C18", "Kopf.C18.select_spec"),
+    ("Kopf.Props.C18", "Kopf.C18.stacked_registration_selected"),
     ("Kopf.Props.C18", "Kopf.C18.gate_enforces_operations"),
     ("Kopf.Props.C18", "Kopf.C18.restricted_handler_skipped"),
     ("Kopf.Props.C18", "Kopf.C18.hinted_only_that_handler"),
@@ -90,7 +94,8 @@ RULE = ("three seeded streams: (patch) k8s-shaped and random bodies, patch deriv
         "(skip/delete/overwrite/type change scalar<->mapping/list/nested merge/empty mapping/leafless mapping/"
         "no-op set, plus new keys; key alphabet with '/', '~', '', unicode), fns from {block_deletion, "
         "allow_deletion}; (serve) registry of 1-4 webhook handlers (reason, operations, subresource incl. '*', "
-        "filters, patch piece, fns, warnings, raised error class/code/message) x request (operation incl. DELETE/"
+        "filters, patch piece, fns, warnings, raised error class/code/message; in a third of the cases one function is "
+        "registered 2-3 times under the same id with other reason/operations/subresource/filters) x request (operation incl. DELETE/"
         "CONNECT/None, subresource, webhook and reason hints); (response) real build_response over outcome lists "
         "of length 0-6 with and without a JSON patch (incl. patch on denial); every serve case is also pushed as a whole "
         "through the model's `serve`, and its handlers through build_webhooks. A case is distinct/non-trivial by its (stream, feature tags, result class) abstraction.")
@@ -112,7 +117,8 @@ ASSUMPTIONS = [
     "admits every operation",
     "JSON numbers are integers in generated cases (no floats)",
     "the other filters of match() (selector, labels, annotations, fields, when) are C15's subject: an opaque boolean here",
-    "handler ids are unique inside one registry (outcomes is a dict keyed by id)",
+    "two DIFFERENT functions never share an id inside one registry (outcomes is a dict keyed by id); ONE function "
+    "registered several times under its id (stacked decorators) is modelled and generated",
     "transformation functions are the two the framework queues itself (finalizers.block_deletion/allow_deletion)",
 ]
 
@@ -773,6 +779,20 @@ def gen_serve_case(r: random.Random) -> dict:
                 h["fns"] = gen_fns(r)
         h["tags"] = sorted(tags)
         hs.append(h)
+    for h in hs:
+        h["fn"] = "f" + h["id"][1:]
+    if r.random() < 0.35:
+        # stacked decorators: ONE function registered 2-3 times under the SAME id with other criteria
+        # (kopf's decorators derive the id from the function name, so the ids of the stack are equal)
+        base = r.choice(hs)
+        for _ in range(r.choice([1, 1, 2])):
+            twin = copy.deepcopy(base)
+            if r.random() < 0.25:
+                twin["reason"] = "validating" if base["reason"] == "mutating" else "mutating"
+            twin["operations"] = r.choice([None, ["CREATE"], ["UPDATE"], ["DELETE"], ["CREATE", "UPDATE"], ["CONNECT"], ["*"]])
+            twin["subresource"] = subresource if r.random() < 0.5 else r.choice([None, "status", "scale", "*"])
+            twin["filter"] = r.choice(["none"] * 4 + ["when-true", "when-false", "label-yes", "other-resource"])
+            hs.insert(r.randint(hs.index(base) + 1, len(hs)), twin)
     ids_ = [h["id"] for h in hs]
     webhook = r.choice([None] * 6 + [r.choice(ids_), r.choice(ids_), "nobody"])
     reason_hint = r.choice([None] * 5 + ["validating", "mutating"])
@@ -837,6 +857,15 @@ def oracle_response(res: Result, resp: dict, raised: list[dict | None], warnings
                  {"site": "admission.build_response", "shape": "warnings differ from those issued, in order"})
 
 
+def _raised_inside_jsonpatch(exc: BaseException) -> bool:
+    tb = exc.__traceback__
+    last = None
+    while tb is not None:
+        last = tb
+        tb = tb.tb_next
+    return last is not None and os.path.basename(last.tb_frame.f_code.co_filename) == "jsonpatch.py"
+
+
 def _through_list(body: Any, op: dict) -> bool:
     """does the `from` or `path` pointer of this op name a position inside a list (by its shape)?"""
     for ptr in (op.get("from", ""), op.get("path", "")):
@@ -855,7 +884,13 @@ def oracle_patch(res: Result, body: dict, patch: dict, fn_objs: list, ops: Any, 
     res.illtyped = bool(hits)
     if exc is not None:
         res.result = err_tag(exc)
-        if isinstance(exc, TypeError) and "leafful" in hits:
+        if _raised_inside_jsonpatch(exc):
+            # the third-party diff itself crashed (bookkeeping of its move optimisation over list indices):
+            # same site and cause as C18-F5, third symptom (wrong patch / inapplicable patch / exception)
+            res.diff_suspect = True
+            res.result = "jsonpatch-raises"
+            res.fail(f"jsonpatch.from_diff raises {type(exc).__name__}: {exc} (out of as_json_patch / serve_admission_request)", SIG_MOVE)
+        elif isinstance(exc, TypeError) and "leafful" in hits:
             res.fail(f"as_json_patch raises TypeError: {exc}", SIG_F4)
         else:
             res.fail(f"as_json_patch raises {type(exc).__name__}: {exc}",
@@ -951,7 +986,7 @@ def eval_patch(env: dict, case: dict) -> Result:
         pass
     elif got is not None and not res.diff_suspect:
         res.reqs.append(("apply(json patch applied)", ["C18.apply", body, patch, fns], ["ok", got]))
-    elif exc is not None:
+    elif exc is not None and not res.diff_suspect:
         res.reqs.append(("apply(as_json_patch error)", ["C18.apply", body, patch, fns], ["err", err_tag(exc)]))
     res.reqs.append(("merge(RFC 7386 reference)", ["C18.merge", body, patch], ["ok", merge7386(body, patch)]))
     return res
@@ -1000,17 +1035,27 @@ def eval_response(env: dict, case: dict) -> Result:
     return res
 
 
+def _key(h: dict) -> tuple[str, str]:
+    """`(id(handler.fn), handler.id)`: the function behind a registration, and its id"""
+    return (h.get("fn", h["id"]), h["id"])
+
+
+def _hj(h: dict) -> dict:
+    return {"id": h["id"], "reason": h["reason"], "operations": h["operations"], "subresource": h["subresource"],
+            "fn": h.get("fn", h["id"])}
+
+
 def _entries(env: dict, case: dict, raised: dict, labels_now: Any) -> list[dict]:
     """every registered handler with its remaining-filters bit and what its invocation does"""
     out = []
     for h in case["handlers"]:
         m = {"none": True, "when-true": True, "when-false": False, "other-resource": False,
              "label-yes": isinstance(labels_now, dict) and labels_now.get("sel") == "yes"}[h["filter"]]
-        if h["id"] in raised:
-            err = errinfo(raised[h["id"]], env)
+        if _key(h) in raised:
+            err = errinfo(raised[_key(h)], env)
         else:
             err = errinfo(mk_exception(env, h["error"]), env) if h["error"] is not None else None
-        out.append({"handler": {"id": h["id"], "reason": h["reason"], "operations": h["operations"], "subresource": h["subresource"]},
+        out.append({"handler": _hj(h),
                     "m": m, "warnings": list(h["warnings"]), "error": err})
     return out
 
@@ -1027,14 +1072,18 @@ async def eval_serve(env: dict, case: dict) -> Result:
     memories = env["inventory"].ResourceMemories()
     registry = registries.OperatorRegistry()
     body = case["body"]
-    log: list[str] = []            # ids of handlers in invocation order
-    raised: dict[str, BaseException] = {}
+    log: list[tuple[str, str]] = []   # (fn, id) of the invoked functions, in invocation order
+    raised: dict[tuple[str, str], BaseException] = {}
     issued: list[str] = []
     holder: dict[str, Any] = {}
+    groups: dict[tuple[str, str], list[dict]] = {}
+    for h in case["handlers"]:
+        groups.setdefault(_key(h), []).append(h)
 
     def mk_fn(h: dict):
+        # the behaviour belongs to the function: all stacked registrations of it share it
         async def fn(patch, warnings, **_):
-            log.append(h["id"])
+            log.append(_key(h))
             holder["patch"] = patch
             for w in h["warnings"]:
                 warnings.append(w)
@@ -1044,17 +1093,18 @@ async def eval_serve(env: dict, case: dict) -> Result:
             patch.fns.extend(mk_fns(env, h["fns"]))
             if h["error"] is not None:
                 e = mk_exception(env, h["error"])
-                raised[h["id"]] = e
+                raised[_key(h)] = e
                 raise e
         return fn
 
+    fn_by_key = {k: mk_fn(g[0]) for k, g in groups.items()}
     for h in case["handlers"]:
         flt = h["filter"]
         when = (lambda **_: True) if flt == "when-true" else (lambda **_: False) if flt == "when-false" else None
         labels = {"sel": "yes"} if flt == "label-yes" else None
         selector = references.Selector("otherkinds") if flt == "other-resource" else references.Selector("kopfexamples")
         registry._webhooks.append(H.WebhookHandler(
-            fn=mk_fn(h), id=ids.HandlerId(h["id"]), param=None, errors=None, timeout=None, retries=None, backoff=None,
+            fn=fn_by_key[_key(h)], id=ids.HandlerId(h["id"]), param=None, errors=None, timeout=None, retries=None, backoff=None,
             selector=selector, labels=labels, annotations=None, when=when, field=None, value=None,
             reason=causes.WebhookType(h["reason"]), operations=h["operations"], subresource=h["subresource"],
             persistent=None, side_effects=None, ignore_failures=None))
@@ -1087,58 +1137,88 @@ async def eval_serve(env: dict, case: dict) -> Result:
     hooks = adm.build_webhooks(registry._webhooks.get_all_handlers(), resources=[resource], name_suffix="sfx",
                                client_config={"url": "https://op.example/base/"})
     by_url = {w["clientConfig"]["url"].rsplit("/", 1)[-1]: w for w in hooks}
+    id_count: dict[str, int] = {}
+    for h in case["handlers"]:
+        id_count[h["id"]] = id_count.get(h["id"], 0) + 1
     for h in case["handlers"]:
         w = by_url.get(h["id"])
         rule_ops = None if w is None or not w["rules"] else w["rules"][0]["operations"]
-        if h["filter"] != "other-resource":
-            res.reqs.append(("ruleops", ["C18.ruleops", {"id": h["id"], "reason": h["reason"], "operations": h["operations"],
-                                                         "subresource": h["subresource"]}], ["ok", rule_ops]))
-    for h in case["handlers"]:
-        ran = h["id"] in log
+        if h["filter"] != "other-resource" and id_count[h["id"]] == 1:
+            res.reqs.append(("ruleops", ["C18.ruleops", _hj(h)], ["ok", rule_ops]))
+    cj = cj_all
+
+    def criteria(h: dict) -> dict:
         m = {"none": True, "when-true": True, "when-false": False, "other-resource": False,
              "label-yes": isinstance(labels_now, dict) and labels_now.get("sel") == "yes"}[h["filter"]]
-        hint_ok = (case["reason"] is None or case["reason"] == h["reason"]) and (case["webhook"] is None or case["webhook"] == h["id"])
-        sub_ok = h["subresource"] == "*" or h["subresource"] == case["subresource"]
         mut_del = h["reason"] == "mutating" and op == "DELETE"
-        opted_strict = h["operations"] is not None and set(h["operations"]) == {"DELETE"}
-        opted_lenient = h["operations"] is not None and "DELETE" in h["operations"]
-        # (a review without an operation is malformed: nothing to match against; '*' admits everything)
-        op_ok = not h["operations"] or op is None or "*" in h["operations"] or op in h["operations"]
-        if ran and not hint_ok:
-            res.fail(f"handler {h['id']} ran against the webhook id/type hint", {"site": "WebhooksRegistry.iter_handlers", "shape": "ran despite webhook/reason hint"})
-        if ran and not sub_ok:
-            res.fail(f"handler {h['id']} (subresource={h['subresource']!r}) ran for subresource {case['subresource']!r}",
-                     {"site": "registries._matches_subresource", "shape": "ran for a non-matching subresource"})
-        if ran and not m:
-            res.fail(f"handler {h['id']} ran although its filters do not match", {"site": "registries.match", "shape": "ran despite filters"})
-        if ran and mut_del and not opted_lenient:
-            res.fail(f"mutating handler {h['id']} ran on DELETE without opting in",
-                     {"site": "WebhooksRegistry.iter_handlers", "shape": "mutating handler ran on DELETE without opt-in"})
-        if ran and not op_ok:
-            res.fail(f"handler {h['id']} declared operations={h['operations']!r} but ran for operation {op!r}", SIG_OPS)
-        if not ran and hint_ok and sub_ok and m and op_ok and (not mut_del or opted_strict):
-            res.fail(f"handler {h['id']} matches the request but did not run",
+        return {
+            "m": m,
+            "hint_ok": (case["reason"] is None or case["reason"] == h["reason"]) and (case["webhook"] is None or case["webhook"] == h["id"]),
+            "sub_ok": h["subresource"] == "*" or h["subresource"] == case["subresource"],
+            "mut_del": mut_del,
+            "opted_strict": h["operations"] is not None and set(h["operations"]) == {"DELETE"},
+            "opted_lenient": h["operations"] is not None and "DELETE" in h["operations"],
+            # (a review without an operation is malformed: nothing to match against; '*' admits everything)
+            "op_ok": not h["operations"] or op is None or "*" in h["operations"] or op in h["operations"],
+        }
+
+    def matches(cr: dict, strict: bool) -> bool:
+        return bool(cr["hint_ok"] and cr["sub_ok"] and cr["m"] and cr["op_ok"]
+                    and (not cr["mut_del"] or cr["opted_strict" if strict else "opted_lenient"]))
+
+    for key, group in groups.items():
+        times = log.count(key)
+        ran = times > 0
+        crs = [criteria(h) for h in group]
+        name = f"{key[1]} (function {key[0]}, {len(group)} registration(s))"
+        if times > 1:
+            res.fail(f"handler {name} was invoked {times} times for one review",
+                     {"site": "registries._deduplicated", "shape": "function invoked more than once per review"})
+        if len(group) == 1:
+            h, cr = group[0], crs[0]
+            if ran and not cr["hint_ok"]:
+                res.fail(f"handler {name} ran against the webhook id/type hint", {"site": "WebhooksRegistry.iter_handlers", "shape": "ran despite webhook/reason hint"})
+            if ran and not cr["sub_ok"]:
+                res.fail(f"handler {name} (subresource={h['subresource']!r}) ran for subresource {case['subresource']!r}",
+                         {"site": "registries._matches_subresource", "shape": "ran for a non-matching subresource"})
+            if ran and not cr["m"]:
+                res.fail(f"handler {name} ran although its filters do not match", {"site": "registries.match", "shape": "ran despite filters"})
+            if ran and cr["mut_del"] and not cr["opted_lenient"]:
+                res.fail(f"mutating handler {name} ran on DELETE without opting in",
+                         {"site": "WebhooksRegistry.iter_handlers", "shape": "mutating handler ran on DELETE without opt-in"})
+            if ran and not cr["op_ok"]:
+                res.fail(f"handler {name} declared operations={h['operations']!r} but ran for operation {op!r}", SIG_OPS)
+            res.reqs.append(("gate", ["C18.gate", _hj(h), cj, cr["m"]], ["ok", ran]))
+        elif ran and not any(matches(cr, False) for cr in crs):
+            # "only handlers matching … run": none of the stacked registrations of this function matches
+            res.fail(f"handler {name} ran although none of its registrations matches the review",
+                     {"site": "WebhooksRegistry.iter_handlers", "shape": "function ran although none of its registrations matches"})
+        # …and conversely: a registration whose criteria hold gets its function invoked (dedup only AFTER matching)
+        if not ran and any(matches(cr, True) for cr in crs):
+            res.fail(f"handler {name} matches the request but did not run",
                      {"site": "WebhooksRegistry.iter_handlers", "shape": "matching handler did not run"})
-        hj = {"id": h["id"], "reason": h["reason"], "operations": h["operations"], "subresource": h["subresource"]}
-        cj = {"reason": case["reason"], "webhook": case["webhook"], "operation": op, "subresource": case["subresource"]}
-        res.reqs.append(("gate", ["C18.gate", hj, cj, m], ["ok", ran]))
-        res.tags.append(f"gate:{h['reason'][:3]}:{'del' if op == 'DELETE' else 'nondel'}:{'ran' if ran else 'skipped'}")
-    if log != [h["id"] for h in case["handlers"] if h["id"] in log]:
+        if len(group) > 1:
+            res.tags.append("stacked:" + ("ran" if ran else "skipped") + (":first-reg-mismatch" if ran and not matches(crs[0], False) else ""))
+        for h in group:
+            res.tags.append(f"gate:{h['reason'][:3]}:{'del' if op == 'DELETE' else 'nondel'}:{'ran' if ran else 'skipped'}")
+    # the whole selection (registry order, dedup after matching) against the model
+    res.reqs.append(("select", ["C18.select", _entries(env, case, raised, labels_now), cj], ["ok", [list(k) for k in log]]))
+    if len(groups) == len(case["handlers"]) and log != [_key(h) for h in case["handlers"] if _key(h) in log]:
         res.fail("handlers ran out of registry order", {"site": "admission.serve_admission_request", "shape": "execution order"})
     # ---- the patch
     patch_obj = holder.get("patch")
     content = copy.deepcopy(dict(patch_obj)) if patch_obj is not None else {}
     fn_objs = list(patch_obj.fns) if patch_obj is not None else []
-    fns_decl = [f for h in case["handlers"] if h["id"] in log for f in h["fns"]]
-    raised_list = [errinfo(raised[i], env) if i in raised else None for i in log]
-    for h in case["handlers"]:
-        if h["id"] in log:
-            res.tags.extend(h.get("tags", []))
+    fns_decl = [f for k in log for f in groups[k][0]["fns"]]
+    raised_list = [errinfo(raised[k], env) if k in raised else None for k in log]
+    for k in dict.fromkeys(log):
+        res.tags.extend(groups[k][0].get("tags", []))
     if exc is not None:
         oracle_patch(res, body, content, fn_objs, None, exc)
-        res.reqs.append(("apply(serve error)", ["C18.apply", body, content, fns_decl], ["err", err_tag(exc)]))
-        res.reqs.append(("serve", ["C18.serve", _entries(env, case, raised, labels_now), cj_all, body, content, fns_decl, []],
-                         ["err", err_tag(exc)]))
+        if not res.diff_suspect:
+            res.reqs.append(("apply(serve error)", ["C18.apply", body, content, fns_decl], ["err", err_tag(exc)]))
+            res.reqs.append(("serve", ["C18.serve", _entries(env, case, raised, labels_now), cj_all, body, content, fns_decl, []],
+                             ["err", err_tag(exc)]))
         res.tags.append("serve-raises")
         return res
     r = resp["response"]
